@@ -255,7 +255,10 @@ def run(ctx):
     early = gen.gen_many(ctx.seed, n // 3, dict(CFG, p_coarse=1.0, p_coarse_early=0.7, freqs=['h', '30min'], T=(4, 9), n_assets=(1, 2)), 'c08co_')
     # structured assets with a life time of their own inside the horizon, wrapping assets that live longer
     struct = gen.gen_many(ctx.seed, n // 3, dict(CFG, p_coarse=0.0, p_struct_inside=0.8, nodes=(2, 3), kinds={'StructuredAsset': 3, 'SimpleContract': 1, 'Transport': 1}), 'c08st_')
-    specs = ctx.specs(util.corpus(ctx.prop) + gen.gen_many(ctx.seed, n, CFG, 'c08_') + zoned + early + struct)
+    # plants / CHP units (binary variables per step of their own window) that start inside the horizon
+    plants = gen.gen_many_plants(ctx.seed, n // 3, dict(CFG, freqs=['h'], units=['h'], tzs=[None], T=(5, 9), p_unaligned_end=0.0, p_window_plant=0.9, p_profile=0.0,
+                                                        p_coarse=0.0, p_periodic=0.0, p_inflow=0.0), 'c08pl_')
+    specs = ctx.specs(util.corpus(ctx.prop) + gen.gen_many(ctx.seed, n, CFG, 'c08_') + zoned + early + struct + plants)
     base = [sp for sp in specs if 'base_spec' not in sp and not sp['id'].endswith('+out')]
     pairs = []
     for sp in specs:
